@@ -90,21 +90,58 @@ Definition doc_facts_good (F : facts) : bool :=
   && match f_num_stoich F with NsSignAbs => true | _ => false end
   && match f_ia_setter F with IaSetSymbol => true | _ => false end.
 
-(** the assignment rules written for computed coefficients.  The rule (and the species reference)
-    is named "<species>ref": ONE id per species, whatever the reaction -- species are numbered, so the
-    id is the species number here *)
-Definition rules_of (F : facts) (r : reaction) : list (N * result ml) :=
-  flat_map (fun xc => match snd xc with CDyn f a => [(fst xc, tree_to_sbml F f a)] | _ => [] end) (r_stoich r).
-Definition doc_rules (F : facts) (rs : list reaction) : list (N * result ml) := flat_map (rules_of F) rs.
+(** * the whole document: reference ids of computed coefficients
+
+    Every computed coefficient gets an assignment rule and a species reference that share ONE id.  The id is
+    "<species>ref" (RefPerSpecies) or "<species>ref", "<species>ref2", ... in document order (RefCounted, the counter
+    `n_references` of the repaired _create_sbml_reactions).  Species are numbered, so an id is the pair
+    (species, index): index 1 is the plain name. *)
+Definition key := (N * N)%type.
+Definition key_eqb (a b : key) : bool := N.eqb (fst a) (fst b) && N.eqb (snd a) (snd b).
+
+(** n_references.get(x, 0) after the coefficients that received the ids [used] *)
+Definition count_refs (x : N) (used : list key) : N :=
+  N.of_nat (List.length (filter (fun k : key => N.eqb (fst k) x) used)).
+
+Definition ref_key (F : facts) (used : list key) (x : N) : key :=
+  match f_ref_id F with
+  | RefPerSpecies => (x, 1%N)
+  | RefCounted => (x, N.succ (count_refs x used))
+  | RefUnknown => (x, 0%N)
+  end.
+
+(** the computed coefficients of the document in the order in which they are exported: species, function, arguments *)
+Definition dyn_of (r : reaction) : list (N * (fundef * list N)) :=
+  flat_map (fun xc => match snd xc with CDyn f a => [(fst xc, (f, a))] | _ => [] end) (r_stoich r).
+Definition doc_dyn (rs : list reaction) : list (N * (fundef * list N)) := flat_map dyn_of rs.
+
+Fixpoint assign_keys (F : facts) (l : list (N * (fundef * list N))) (used : list key) : list (key * (fundef * list N)) :=
+  match l with
+  | [] => []
+  | (x, fa) :: r => let k := ref_key F used x in (k, fa) :: assign_keys F r (k :: used)
+  end.
+
+Definition doc_keyed (F : facts) (rs : list reaction) : list (key * (fundef * list N)) := assign_keys F (doc_dyn rs) [].
+
+(** the assignment rules of the document, in order: (id, math or the exception of its conversion) *)
+Definition doc_rules (F : facts) (rs : list reaction) : list (key * result ml) :=
+  map (fun kf => (fst kf, tree_to_sbml F (fst (snd kf)) (snd (snd kf)))) (doc_keyed F rs).
 
 (** the rule an importer binds to a reference id: with several rules for one id (an invalid
     document) the last one wins *)
-Fixpoint rule_for {A} (x : N) (l : list (N * A)) : option A :=
+Fixpoint rule_for {A} (x : key) (l : list (key * A)) : option A :=
   match l with
   | [] => None
   | (k, v) :: r =>
       match rule_for x r with
       | Some w => Some w
-      | None => if N.eqb k x then Some v else None
+      | None => if key_eqb k x then Some v else None
       end
+  end.
+
+(** SBML meaning, after import, of the species reference with id [k] in the document exported for [rs] *)
+Definition imported_dyn_coef (ufn : rfun -> list Q -> option Q) (rho : N -> option Q) (F : facts) (rs : list reaction) (k : key) : option Q :=
+  match rule_for k (doc_rules F rs) with
+  | Some (Ok m) => sref_coef ufn rho (mkSref (f_derived_role F) (fst k) None (Some m))
+  | _ => None
   end.
